@@ -7,8 +7,10 @@ verus! {
 pub uninterp spec fn lossy(b: Seq<u8>) -> Seq<char>;
 pub uninterp spec fn cow_chars(c: Cow<'_, str>) -> Seq<char>;
 pub uninterp spec fn str_chars(s: &str) -> Seq<char>;
+/// the bytes a lossily decoded text was decoded from
+pub uninterp spec fn cow_src(c: Cow<'_, str>) -> Seq<u8>;
 pub assume_specification<'a>[ String::from_utf8_lossy ](v: &'a [u8]) -> (r: Cow<'a, str>)
-    ensures cow_chars(r) == lossy(v@);
+    ensures cow_chars(r) == lossy(v@), cow_src(r) == v@;
 pub uninterp spec fn spec_glob(p: Seq<char>, t: Seq<char>) -> bool;
 /// ASSUMED CONTRACT for engine.rs::pattern_matches called through &Cow<str> deref: result is the glob relation on the two texts
 #[verifier::external_body]
